@@ -219,7 +219,14 @@ def case_strategy(draw, tier):
             'summary': draw(st.integers(0, 5)) == 0}
 
 
+def can_inject_registry():
+    reg = getattr(R.src, 'registry', None)
+    return reg is not None and isinstance(getattr(reg, 'pels', None), list)
+
+
 def set_registry(entries):
+    if not can_inject_registry():
+        return None
     reg = R.src.registry
     old = reg.pels
     reg.pels = entries
@@ -258,6 +265,9 @@ def classify(pel, registry, note):
 
 
 def check_pel(pel, registry, plugins, note, summary=False):
+    if not can_inject_registry():
+        registry = list(getattr(getattr(R.src, 'registry', None), 'pels', None) or [])
+        note.label('no-registry-injection')
     old = set_registry(registry)
     set_compnames(None)
     try:
@@ -273,7 +283,8 @@ def check_pel(pel, registry, plugins, note, summary=False):
         if summary:
             check_summary(pel, data, registry, plugins, note)
     finally:
-        set_registry(old)
+        if old is not None:
+            set_registry(old)
 
 
 def check_summary(pel, data, registry, plugins, note):
